@@ -138,16 +138,29 @@ def gen_case(r):
     sub = r.choice(dirs) if dirs else ''
     keep = r.random() < 0.4
     hashes, sort, wm, fmt, prof, sign, keyid, vpgp = c.opts
+    def ignored_by_root(target):
+        ino = c.tree.lookup('Manifest')
+        ents = OX.parse('Manifest', c.tree.nodes[ino]['data']) if ino is not None and c.tree.nodes[ino]['k'] == 'f' else None
+        return ents is None or any(e[0] == 'IGNORE' and OX.under(target, e[1].rstrip('/')) for e in ents)
+
+    def discoverable(target):
+        # a file named Manifest on the way up, or an IGNORE of the target in the root Manifest, changes which
+        # Manifest the CLI takes for the top-level one (discovery is C15's subject)
+        parts = target.split('/') if target else []
+        if any(c.tree.lookup('/'.join(parts[:k] + ['Manifest'])) is not None for k in range(1, len(parts) + 1)):
+            return False
+        return not (target and ignored_by_root(target))
     if kind == 'verify':
         target = r.choice(['', sub])
+        if not discoverable(target):
+            target = ''
         c.argv = ['verify'] + (['-k'] if keep else []) + ['@' + target]
         c.ops = [['verify', target, 1 if keep else 0, []]]
         c.allow_create = False
     elif kind in ('update', 'update-sub'):
         target = sub if kind == 'update-sub' else ''
         # a file named Manifest on the way up would be taken for the top-level Manifest (discovery is C15's subject)
-        parts = target.split('/') if target else []
-        if any(c.tree.lookup('/'.join(parts[:k] + ['Manifest'])) is not None for k in range(1, len(parts) + 1)):
+        if not discoverable(target):
             target = ''
         c.argv = ['update', '-H', ' '.join(hashes), '-p', profile] + (['-s'] if False else []) + ['@' + target]
         c.opts = (hashes, None, None, None, profile, None, None, True)
@@ -163,7 +176,7 @@ def gen_case(r):
 def c18(ctx):
     quick = ctx.tier == 'quick'
     r = ctx.rng('c18')
-    n = 900 if quick else 14000
+    n = 2500 if quick else 14000
     cases = [gen_case(r) for _ in range(n)]
     impl_res = []
     reqs = []
@@ -206,6 +219,10 @@ def c18(ctx):
             internal += 1
             if not known_finding(ctx, 'C18', c, 'internal', ic):
                 ctx.violation('spec', f'gemato {" ".join(c.argv[:1])}: an internal error escaped: {ic[1:]}', replay)
+        def diagnosed_failure(x):
+            return x[:2] == ['exit', 1] or (x[0] == 'exc' and x[1] in ('OSError', 'NotUTF8', 'BadCompressedFile', 'CodecInternalError'))
+        if diagnosed_failure(ic) and diagnosed_failure(mc):
+            continue        # several things are wrong with the tree: which one is met first depends on the loading order
         if ic[:2] != mc[:2] and not (ic[0] == 'exc' and mc[0] == 'exc' and ic[1] == mc[1]):
             if mc == ['exc', 'OutOfFuel'] and ic[0] == 'exc' and ic[1] == 'OSError':
                 continue
